@@ -193,10 +193,21 @@ def frag_expected(tree, d, k, out, par=None):
         frag_stmt_expected(t, d, k, [e], out, par); k = e + 1
     return k
 def frag_program(rng):
+    """a program of the fragment; in half of the cases a unit: `var`/`const` sections (Model/Fragment.v render_unit)
+    in front of the main block — the section keyword on a line of level 0, every member on its line of level 1"""
     tree = frag_tree(rng)
-    text = "begin" + rng.choice(["\n", " "]) + frag_text(tree, rng) + rng.choice(["\n", " "]) + "end."
-    out = [(0, None, [0])]
-    k = frag_expected(tree, 1, 1, out)
+    sep = lambda: rng.choice(["\n", " "])
+    head = ""; out = []; k = 0
+    if rng.random() < 0.5:
+        for _ in range(rng.randrange(1, 4)):
+            cst = rng.random() < 0.5; nm = rng.randrange(0, 4)
+            head += ("const" if cst else "var") + sep(); out.append((0, None, [k])); k += 1
+            for _ in range(nm):
+                head += rng.choice(["x", "y1", "Foo"]) + (" = " if cst else ": ") + rng.choice(["T", "u", "Bar"]) + ";" + sep()
+                out.append((1, None, [k, k + 1, k + 2, k + 3])); k += 4
+    text = head + "begin" + sep() + frag_text(tree, rng) + sep() + "end."
+    out.append((0, None, [k]))
+    k = frag_expected(tree, 1, k + 1, out)
     return text, out + [(0, None, [k, k + 1]), (0, None, [k + 2])]
 
 def gen_set(name, n, rng):
